@@ -1210,6 +1210,111 @@ theorem genOk_on_curve (gen : Ext) (h : genOk gen = true) : onCurve (genAffine g
     simp only [Bool.and_eq_true] at h2
     exact h2.1
 
+/-! ### the layout does not depend on the witness values -/
+
+theorem gateAdd_gates (s : Constraint) (c : Composer) :
+    ((gateAdd s).run c).2.gates =
+      c.gates.push (Constraint.arithmetic { gateAddC s with c := c.wit.size }).toGate := by
+  rw [gateAdd_snd]
+  obtain ⟨cv, -, hr⟩ := appendEvaluatedOutput_some (gateAddC s) c (toF_gateAddC_qo s)
+  rw [hr]
+  rfl
+
+theorem gateAdd_layout {c1 c2 : Composer} (h : SameLayout c1 c2) (s : Constraint)
+    (hs : s.hasPi = false) :
+    SameLayout ((gateAdd s).run c1).2 ((gateAdd s).run c2).2 :=
+  ⟨by rw [gateAdd_gates, gateAdd_gates, h.gates, h.wsize],
+   by rw [(gateAdd_appends s c1).wit, (gateAdd_appends s c2).wit, h.wsize],
+   by rw [gateAdd_pis _ _ hs, gateAdd_pis _ _ hs, h.pis]⟩
+
+theorem canonOut_layout {c1 c2 : Composer} (h : SameLayout c1 c2) (s n : Nat) :
+    SameLayout (canonOut c1 s n) (canonOut c2 s n) := by
+  have h1 : SameLayout (canon1 c1 s n) (canon1 c2 s n) := rangeCheck_layout h s n
+  have h2 : SameLayout (canon2 c1 s n) (canon2 c2 s n) := gateAdd_layout h1 _ rfl
+  unfold canonOut canonDist
+  rw [h1.wsize]
+  exact rangeCheck_layout h2 _ n
+
+theorem fbOut_layout {cs1 cs2 : Composer} (h : SameLayout cs1 cs2) (L s : Nat) (mults : List Pt)
+    (acc1 acc2 : List (Nat × Pt × Nat) × (Nat × Pt)) (hl : acc1.1.length = acc2.1.length) :
+    SameLayout (fbOut cs1 L s mults acc1) (fbOut cs2 L s mults acc2) :=
+  ⟨by simp only [fbOut, h.gates, h.wsize, hl],
+   by rw [fbOut_wit_size, fbOut_wit_size, h.wsize, hl],
+   by rw [fbOut_pis, fbOut_pis, h.pis]⟩
+
+theorem fbState_layout {c1 c2 : Composer} (h : SameLayout c1 c2) (s : Nat) (g : Pt)
+    (d1 d2 : List Int) (h1 : d1.length = fbN) (h2 : d2.length = fbN) :
+    SameLayout (fbState c1 s g d1) (fbState c2 s g d2) :=
+  fbOut_layout (canonOut_layout h s _) _ _ _ _ _
+    (by rw [fbAccs_length g d1 h1, fbAccs_length g d2 h2])
+
+theorem withValue_wf (c : Composer) (x v : Nat) (h : WF c) (hv : v < R) : WF (withValue c x v) := by
+  refine ⟨fun i => ?_, h.pis_zero⟩
+  have hi := h.val_lt i
+  unfold withValue val at *
+  simp only [Array.getD_eq_getD_getElem?, Array.getElem?_setIfInBounds, Array.size_setIfInBounds] at *
+  split
+  · split
+    · exact hv
+    · exact R_pos
+  · split
+    · split
+      · exact R_pos
+      · exact R_pos
+    · exact hi
+
+
+/-- for the layout of a successful ladder call, and any target value `v` of the scalar witness:
+    a satisfying assignment exists iff `v < r_J` -/
+theorem fbState_satisfiable_iff (c : Composer) (s : Nat) (g : Pt) (digits : List Int)
+    (hwf : WF c) (hs : s < c.wit.size) (hg : onCurve g = true) (hlen : digits.length = fbN)
+    (v : Nat) (hvR : v < R) (hs0 : s = 0 → v = 0) :
+    (∃ w : Nat → Nat, w s = v ∧ w 0 = 0 ∧
+      (fbState c s g digits).rowsHoldW w c.gates.size (fbState c s g digits).gates.size) ↔
+      v < RJ := by
+  constructor
+  · rintro ⟨w, hws, hw0, hrows⟩
+    have := (fixedBase_sound c s g digits hwf hg hlen _ (Extends.refl _) w
+      (by rw [hw0]; simp) hrows).1
+    rwa [hws, val_toF_of_lt hvR] at this
+  · intro hv
+    have hl := withValue_layout c s v
+    have hwf2 := withValue_wf c s v hwf hvR
+    have hs2 : s < (withValue c s v).wit.size := by rw [← hl.wsize]; exact hs
+    have hval : (withValue c s v).val s = v := withValue_val_self c s v hs
+    have hz2 := withValue_val_zero c s v hs0
+    have hL := fbState_layout hl s g digits (wnaf2 ((withValue c s v).val s)) hlen
+      (wnaf2_length _)
+    have hext := fbState_extends (withValue c s v) s g (wnaf2 ((withValue c s v).val s))
+    have hcomp := fixedBase_complete_naf (withValue c s v) s g hwf2 hs2 hz2 hg
+      (by rw [hval]; exact hv) _ (Extends.refl _)
+    refine ⟨(fbState (withValue c s v) s g (wnaf2 ((withValue c s v).val s))).val, ?_, ?_, ?_⟩
+    · rw [hext.val_eq hs2, hval]
+    · rw [hext.val_eq (by omega), hz2]
+    · rw [hL.rowsHoldW_iff, hL.gates, hl.gates]
+      exact hcomp
+
+
+/-- inversion of a successful `component_mul_generator` call -/
+theorem componentMulGenerator_ok_inv (c : Composer) (s : Nat) (gen : Ext) (p : Pt) (c' : Composer)
+    (hrun : (componentMulGenerator s gen).run c = (.ok p, c')) :
+    genOk gen = true ∧ c.val s < RJ ∧
+    p = (fbBase c s + 4 * fbN, fbBase c s + 4 * fbN + 1) ∧
+    c' = fbState c s (genAffine gen) (wnaf2 (c.val s)) := by
+  have hr := componentMulGenerator_run s gen c
+  rw [hrun] at hr
+  by_cases h1 : genOk gen = true
+  · by_cases h2 : RJ ≤ c.val s
+    · rw [if_neg (by simp [h1]), if_pos h2] at hr
+      exact absurd (congrArg Prod.fst hr) (fun h => by cases h)
+    · rw [if_neg (by simp [h1]), if_neg h2] at hr
+      have hp : p = (fbBase c s + 4 * fbN, fbBase c s + 4 * fbN + 1) := by
+        have := congrArg Prod.fst hr; simpa using this
+      exact ⟨h1, by omega, hp, congrArg Prod.snd hr⟩
+  · have h1f : genOk gen = false := by simpa using h1
+    rw [if_pos h1f] at hr
+    exact absurd (congrArg Prod.fst hr) (fun h => by cases h)
+
 /-! ### interface definitions used by the property file -/
 
 /-- a digit vector as accepted by the widget: 256 entries in `{−1, 0, 1}` -/
